@@ -86,8 +86,30 @@ func dumpValue(v reflect.Value, depth int) interface{} {
 
 func dump(x interface{}) interface{} { return dumpValue(reflect.ValueOf(x), 0) }
 
+// noNaN makes a dumped tree marshalable: the code under test may produce NaN / Inf
+func noNaN(v interface{}) interface{} {
+	switch t := v.(type) {
+	case float64:
+		if math.IsNaN(t) || math.IsInf(t, 0) {
+			return fmt.Sprint(t)
+		}
+		return t
+	case J:
+		for k, x := range t {
+			t[k] = noNaN(x)
+		}
+		return t
+	case []interface{}:
+		for i, x := range t {
+			t[i] = noNaN(x)
+		}
+		return t
+	}
+	return v
+}
+
 func digest(x interface{}) string {
-	b, err := json.Marshal(dump(x)) // encoding/json sorts map keys
+	b, err := json.Marshal(noNaN(dump(x))) // encoding/json sorts map keys
 	if err != nil {
 		die(2, "digest marshal: %v", err)
 	}
